@@ -190,6 +190,45 @@ pub fn judge_transition(o: &mut Outcome, t: &GTarget, lt: &LibTransition, next: 
     true
 }
 
+/// The run was cut off by the evaluation budget in the middle of a transition. Decide whether that
+/// is a hang: if Algorithm 6, fed the draws traced so far, stops (U-turn, stopped sub-tree or
+/// divergence) at an earlier doubling than the library had already reached, the library kept
+/// doubling after the stopping point. Otherwise the trajectory is merely long: not judged.
+pub fn judge_cut_off_transition(o: &mut Outcome, t: &GTarget, lt: &LibTransition, eps_b: f64, name: &str) {
+    if lt.dirs.is_empty() || lt.pos.is_empty() || lt.mom.is_empty() {
+        o.count("cut_off_before_first_doubling_not_judged", 1);
+        return;
+    }
+    // the accept uniform of the doubling in progress has not been drawn yet: feed a neutral one
+    let mut accept: Vec<f64> = lt.accept.iter().map(|a| a.0).collect();
+    while accept.len() < lt.dirs.len() {
+        accept.push(1.0);
+    }
+    // merge uniforms of the unfinished doubling may be missing: pad (selection does not affect stopping)
+    let mut merges = lt.merge_us.clone();
+    merges.extend(std::iter::repeat(0.5).take(1 << 16));
+    let done = lt.accept.len(); // completed doublings
+    let feed = Feed { dirs: lt.dirs[..done.min(lt.dirs.len())].to_vec(), merge_us: merges, accept_us: accept, ..Default::default() };
+    if feed.dirs.is_empty() {
+        o.count("cut_off_long_trajectory_not_judged", 1);
+        return;
+    }
+    let r = nuts_transition(t, &lt.pos, &lt.mom, lt.logu, lt.eps, eps_b, feed, 40);
+    if r.ambiguous.is_some() {
+        o.count("ambiguous_not_judged", 1);
+        return;
+    }
+    if r.stop != Stop::FeedExhausted && r.depth <= done {
+        o.violate(
+            "hang",
+            &format!("NUTS::step[{name}]:keeps-doubling-after-the-stopping-point"),
+            format!("evaluation budget exhausted in doubling {} of a transition that Algorithm 6 ends after {} doublings ({:?}) [{:?} d={}, eps={:e}, x={:?}]", lt.dirs.len(), r.depth, r.stop, t.kind, t.d, lt.eps, lt.pos),
+        );
+    } else {
+        o.count("cut_off_long_trajectory_not_judged", 1);
+    }
+}
+
 fn nuts_run<T, B>(params: &Value, ws: bool, eps_b: f64, name: &'static str) -> Outcome
 where
     T: Float + burn::tensor::ElementConversion + Element + rand_distr::uniform::SampleUniform + num_traits::FromPrimitive,
@@ -226,6 +265,12 @@ where
         let m = mcmc_sim::sim::take_last_panic().unwrap_or_default();
         if m.contains("VERIF-EVAL-BUDGET") {
             o.count("skipped_evaluation_budget", 1);
+            let trs = parse_transitions(&ev);
+            match trs.last() {
+                Some(lt) if !lt.complete => judge_cut_off_transition(&mut o, &target, lt, eps_b, name),
+                None => o.violate("hang", &format!("NUTS::run[{name}]:initial-step-size-search-unbounded"), "evaluation budget exhausted before the first transition".into()),
+                _ => {}
+            }
             return o;
         }
         let loc = m.rsplit(" @ ").next().unwrap_or("").to_string();
